@@ -77,6 +77,10 @@ class Prop:
         """return a set of hashable 'case classes' that count as distinct & non-trivial"""
         return set()
 
+    def search_streams(self):
+        """extra (Stream, generator) pairs used only by the search for a failing input after something broke"""
+        return []
+
     def extra(self, ctx):
         """process-level runs etc.; return (violations, stats dict)"""
         return [], {}
@@ -301,6 +305,43 @@ def run_check(prop, tier="quick", seed=0, replay=None):
         cov.update(stats)
     except Exception as e:
         broken.append(f"extra part crashed: {e}\n{traceback.format_exc()[-800:]}")
+
+    # ---- 4b. something no longer checks and the executed cases showed no failing input: SEARCH for one.
+    #          Fresh generator seeds (and the property's own focused generators, `search_streams`) are run through the
+    #          implementation and judged by the property oracle alone, within a time budget. Never runs on a tree on
+    #          which everything checks, so it costs nothing there and cannot raise an alarm there.
+    if broken and not violations and binary and drv_ok and not os.environ.get("VERIF_NO_SEARCH"):
+        budget = float(os.environ.get("VERIF_SEARCH_S", "150" if tier == "quick" else "900"))
+        t_end = time.time() + budget
+        sstat = {"rounds": 0, "ops": 0, "budget_s": budget, "found": False}
+        k = 0
+        try:
+            while time.time() < t_end and not violations:
+                k += 1
+                r2 = Rng(seed * 7919 + 104729 * k + int(pid[1:]))
+                todo = [(st, st.gen) for st in prop.streams] + [(st, g) for st, g in prop.search_streams()]
+                for st, g in todo:
+                    if time.time() >= t_end or violations:
+                        break
+                    ops = g(r2.fork(), tier)
+                    res = runmod.both(binary, ops, parallel=st.parallel, harness_env=st.env, timeout=st.timeout)
+                    sstat["ops"] += sum(1 for o in ops if o and not o.startswith("#"))
+                    try:
+                        vs = prop.oracle(st.name, ops, res["go"])
+                    except Exception:
+                        vs = []
+                    for v in vs:
+                        v.stream = v.stream or st.name
+                        fid = prop.classify(v)
+                        if fid and fid in known and known[fid].get("status") == "known":
+                            continue
+                        v.what += f"  [found by the search after a broken obligation / tie, round {k}]"
+                        violations.append(v)
+                sstat["rounds"] = k
+        except Exception as e:
+            notes.append(f"search crashed: {e}")
+        sstat["found"] = bool(violations)
+        cov["search"] = sstat
 
     # ---- 5. verdict
     lines = []
